@@ -11,7 +11,7 @@ import sys
 import numpy as np
 from scipy import sparse
 
-GETTERS = ["array", "volumes", "volumes_approx", "adjacency", "borders", "distances"]
+GETTERS = ["array", "volumes", "volumes_approx", "hulls", "polytope_nodes", "adjacency", "borders", "distances"]
 DIM = {"ico": 3, "cube3D": 3, "randomS": 3, "zero3D": 3, "cube4D": 4, "randomQ": 4, "fulldiv": 4, "zero4D": 4}
 
 
@@ -41,6 +41,10 @@ def call_getter(g, what):
         return g.get_spherical_voronoi().get_voronoi_volumes()
     if what == "volumes_approx":        # the same getter with its documented `approx` argument (3D: numerical estimate)
         return g.get_spherical_voronoi().get_voronoi_volumes(approx=True)
+    if what == "hulls":                 # volumes of the convex hulls behind the estimated cell volumes (N >= 4)
+        return np.array([h.volume for h in g.get_convex_hulls()])
+    if what == "polytope_nodes":        # the polytope a polytope grid was cut from, as the grid object exposes it
+        return np.zeros(0) if g.polytope is None else np.asarray(g.polytope.get_nodes(projection=True))
     if what == "adjacency":
         return g.get_voronoi_adjacency()
     if what == "borders":
